@@ -231,6 +231,8 @@ static void run() {
     else if (c == "simplify") { ContentPtr a = pop(); stack.push_back(a.get()->shallow_simplify()); }
     else if (c == "typestr") { ContentPtr a = pop(); util::TypeStrs ts; std::string t = a.get()->type(ts).get()->tostring(); printf("OK \"%s\"\n", t.c_str()); fflush(stdout); _Exit(0); }
     else if (c == "formjson") { ContentPtr a = pop(); std::string j = a.get()->form(true).get()->tojson(false, false); printf("OK %s\n", j.c_str()); fflush(stdout); _Exit(0); }
+    else if (c == "rangeof") { int64_t a = nint(), b = nint(); ContentPtr x = pop(); stack.push_back(x.get()->getitem_range_nowrap(a, b)); }      // the view x[a:b] (no wrapping, no copy)
+    else if (c == "isunique") { ContentPtr a = pop(); printf("OK %s\n", a.get()->is_unique() ? "true" : "false"); fflush(stdout); _Exit(0); }
     else if (c == "viewfrom") { int64_t k = nint(); ContentPtr x = pop();      // the same lists from list k on, as a view into the same offsets buffer
       if (ListOffsetArray64* r = dynamic_cast<ListOffsetArray64*>(x.get())) stack.push_back(std::make_shared<ListOffsetArray64>(noid, noparams, r->offsets().getitem_range_nowrap(k, r->offsets().length()), r->content()));
       else throw std::runtime_error("akrun: viewfrom on something that is not a ListOffsetArray64"); }
